@@ -26,7 +26,12 @@ pub trait Latch<P>: Deref<Target = P> {}
 
 impl<P> ReadLatch<P> {
     pub(crate) fn new(lock: &Arc<RwLock<P>>) -> Self {
-        Self(lock.read_arc())
+        #[cfg(feature = "verif")]
+        crate::verif::yield_point(crate::verif::YieldPoint::BeforeReadLatch);
+        let latch = Self(lock.read_arc());
+        #[cfg(feature = "verif")]
+        crate::verif::yield_point(crate::verif::YieldPoint::AfterReadLatch);
+        latch
     }
 }
 
@@ -44,7 +49,12 @@ pub(crate) struct WriteLatch<P>(ArcRwLockWriteGuard<RawRwLock, P>);
 
 impl<P> WriteLatch<P> {
     pub(crate) fn new(lock: &Arc<RwLock<P>>) -> Self {
-        Self(lock.write_arc())
+        #[cfg(feature = "verif")]
+        crate::verif::yield_point(crate::verif::YieldPoint::BeforeWriteLatch);
+        let latch = Self(lock.write_arc());
+        #[cfg(feature = "verif")]
+        crate::verif::yield_point(crate::verif::YieldPoint::AfterWriteLatch);
+        latch
     }
 }
 
